@@ -69,4 +69,5 @@ def run(rep, tier):
     plain = (opcells.single_target_cells(tier, seed)[1::k] + opcells.multi_target_cells(tier, seed)[1::k] + morecells.structural_cells(tier, seed)[1::k + 1]
              + morecells.kraus_cells(tier, seed)[1::k] + morecells.resize_cells(tier, seed)[1::k + 1] + morecells.trace_out_cells(tier, seed)[1::k])
     B.run_b(rep, plain, ["C20"], tier=tier)
+    B.run_b(rep, morecells.three_space_cells(tier, seed) + morecells.stale_cache_cells(tier, seed), ["C20"], explore=True, tier=tier)
     B.run_b(rep, morecells.measure_cells(tier, seed)[1::k] + morecells.povm_cells(tier, seed)[1::k], ["C20"], explore=True, tier=tier)
